@@ -1,3 +1,4 @@
+#[cfg(bc_envelope_verif)] use crate::verif_std as std;
 #[cfg(feature = "expression")]
 use bc_components::tags::*;
 use dcbor::prelude::*;
